@@ -51,8 +51,9 @@ class C14(Prop):
                 rng.shuffle(order)
             return {"kind": "jdd", "jdd": [[list(k), rs(x)] for k, x in zip(keys, w)], "names": names, "dict_order": order}
         c = netgen.generated_network(rng) if rng.random() < 0.6 else netgen.hand_network(rng)
-        if rng.random() < 0.3:
-            c["jd_type"] = "list"
+        r = rng.random()
+        if r < 0.45:
+            c["jd_type"] = "list" if r < 0.3 else "numpy"
         if rng.random() < 0.4:
             c["node_order"] = [v for v, _ in c["jd"]]
             rng.shuffle(c["node_order"])          # a vertex's label is not its position in G.nodes()
